@@ -2,6 +2,7 @@ package object
 
 import (
 	"fmt"
+	"math"
 	"math/bits"
 	"runtime"
 	"runtime/debug"
@@ -25,7 +26,17 @@ func SizeOk(n int) (bool, int64) {
 		return true, 0
 	}
 	free := FreeMemory()
-	return ((free >= 0) && ((int64(n) * ObjectSize) < free)), free
+	// Compare without multiplying: int64(n)*ObjectSize wraps around for n >= 2^59 and would pass the check.
+	return ((free >= 0) && (int64(n) < free/ObjectSize)), free
+}
+
+// SizeMul returns a*b for sizes, or math.MaxInt when the product does not fit an int, so that
+// SizeOk/MustBeOk refuse it instead of seeing a wrapped around (small) value.
+func SizeMul(a, b int) int {
+	if a > 0 && b > math.MaxInt/a {
+		return math.MaxInt
+	}
+	return a * b
 }
 
 func MustBeOk(n int) {
